@@ -58,6 +58,95 @@ type caseRun struct {
 	obs      map[int64]psyncObs
 
 	abort chan struct{} // closed by a target hook: the phase ends ("cut")
+
+	// target-fault state (atomics: read in the target's hook, written in the source's hook)
+	psyncN      atomic.Int64 // PSYNCs decided by the source so far
+	armedAt     atomic.Int64 // value of psyncN when the fault was armed (0 = not armed)
+	faultOver   atomic.Bool
+	faultErrors atomic.Int64
+}
+
+// onPsync is the source double's OnPsync hook (no calls into any double from here).
+func (cr *caseRun) onPsync(ev fakeredis.PsyncEvent) {
+	n := cr.psyncN.Add(1)
+	switch cr.p.C.TFault {
+	case "reset":
+		if !ev.Continue && cr.armedAt.Load() == 0 {
+			cr.armedAt.Store(n) // first +FULLRESYNC of the reconnect
+		}
+	case "setrunid":
+		if cr.armedAt.Load() == 0 {
+			cr.armedAt.Store(n) // first answer of the reconnect
+		}
+	}
+}
+
+const targetDown = fakeredis.Err("ERR verif: target temporarily failing")
+
+// armTargetFault installs the target double's fault for the judged reconnect.
+func (cr *caseRun) armTargetFault() {
+	p := cr.p
+	if p.C.TFault == "" {
+		return
+	}
+	cr.psyncN.Store(0)
+	cr.armedAt.Store(0)
+	cr.faultOver.Store(false)
+	isCp := func(q *fakeredis.Req) bool {
+		return len(q.Args) > 0 && string(q.Args[0]) == config.CheckpointKey && (q.Cmd == "HSET" || q.Cmd == "HDEL" || q.Cmd == "HMSET")
+	}
+	isHash := func(q *fakeredis.Req) bool {
+		return len(q.Args) > 0 && string(q.Args[0]) == config.CheckpointKeyHashKey
+	}
+	// setrunid: an attempt of the run-id bookkeeping (checkpoint.UpdateCheckpoint) starts with the
+	// look-up of the run id in the checkpoint-hash key; its writes are counted from there
+	writes, attempts, inAttempt := 0, 0, false
+	cr.tgt.SetHooks(nil, func(q *fakeredis.Req) (fakeredis.Reply, bool) {
+		at := cr.armedAt.Load()
+		if at == 0 || cr.faultOver.Load() || q.Conn < 0 {
+			return nil, false
+		}
+		if cr.psyncN.Load() != at {
+			// the tool gave the connection up: another PSYNC was decided
+			cr.faultOver.Store(true)
+			return nil, false
+		}
+		switch p.C.TFault {
+		case "reset":
+			// logical end: ... or the tool went on to the run-id bookkeeping although the reset had not succeeded
+			if isHash(q) {
+				cr.faultOver.Store(true)
+				return nil, false
+			}
+			if isCp(q) {
+				cr.faultErrors.Add(1)
+				return targetDown, true
+			}
+		case "setrunid":
+			if q.Cmd == "RESTORE" || q.Cmd == "MULTI" {
+				cr.faultOver.Store(true) // the bookkeeping is behind, the replay has begun
+				return nil, false
+			}
+			if isHash(q) && q.Cmd == "HGET" {
+				if !inAttempt || writes > 0 {
+					attempts++
+					writes, inAttempt = 0, true
+					if attempts > p.TFaultN {
+						cr.faultOver.Store(true)
+					}
+				}
+				return nil, false
+			}
+			if inAttempt && (isCp(q) || (isHash(q) && (q.Cmd == "HSET" || q.Cmd == "HDEL"))) {
+				writes++
+				if writes >= p.TFaultK {
+					cr.faultErrors.Add(1)
+					return targetDown, true
+				}
+			}
+		}
+		return nil, false
+	}, nil)
 }
 
 // psyncObs: the tool's holdings when a PSYNC reached the source double.  The tool is blocked on
